@@ -78,6 +78,9 @@ def tasks(tier, seed, selftest=False):
     else:
         for sk in PLAIN:
             S.append(dict(family="D3", skeleton=(sk,), timebox=25))
+        # histories in which a stub's percolated Petri net is cached (from its parent's cached net) before it is expanded
+        for sk in (("succ", "aseeds"), ("bfs", "aseeds"), ("succ", "minp"), ("bfs", "minp"), ("aseeds", "succ")):
+            S.append(dict(family="D3", skeleton=sk, timebox=20))
     return histcheck.mk_tasks(PROP, S, seed)
 
 
